@@ -2,7 +2,7 @@
    report at every callback the top-down `types_at` of the chain of enclosing nodes. *)
 From Coq Require Import List NArith Bool Arith Lia.
 From GQL Require Import Visitor.VisitorTree Visitor.VisitorWalk Visitor.VisitorLoop
-     Visitor.VisitorKeysSpec Visitor.TypeInfo
+     Visitor.VisitorKeysSpec Visitor.TypeInfo Visitor.TypeInfoPre
      Proofs.VisitorWalkProofs Proofs.VisitorLoopProofs Proofs.VisitorParallelProofs.
 Import ListNotations.
 Open Scope N_scope.
@@ -231,3 +231,104 @@ Proof.
 Qed.
 
 End TIP.
+
+(* ---- the precondition "node kind determined by node identity", decided by kinds_fun ---- *)
+Lemma memb_in l x : memb N.eqb x l = true -> In x l.
+Proof.
+  unfold memb. intros H. apply existsb_exists in H. destruct H as (y & Hy & E).
+  apply N.eqb_eq in E. subst. exact Hy.
+Qed.
+
+Lemma kinds_fun_tbl : forall tbl,
+  nodupb N.eqb (map fst tbl) = true ->
+  forall i k, In (i, k) tbl -> kind_of_tbl tbl i = k.
+Proof.
+  induction tbl as [|[i0 k0] r IH]; intros Hn i k Hin; [destruct Hin|].
+  cbn [map fst nodupb] in Hn. apply andb_prop in Hn. destruct Hn as [Hm Hr].
+  unfold kind_of_tbl. cbn [assoc]. destruct Hin as [E|Hin].
+  - inversion E; subst. rewrite N.eqb_refl. reflexivity.
+  - destruct (N.eqb_spec i i0) as [->|Hne].
+    + exfalso. apply negb_true_iff in Hm.
+      assert (X : memb N.eqb i0 (map fst r) = true).
+      { unfold memb. apply existsb_exists. exists i0. split; [|apply N.eqb_refl].
+        apply in_map_iff. exists (i0, k). split; [reflexivity | exact Hin]. }
+      rewrite X in Hm. discriminate.
+    + exact (IH Hr i k Hin).
+Qed.
+
+Theorem typeinfo_checked sch attr sel pol keys_of t :
+  ti_ok false false t = true -> kinds_fun t = true ->
+  ti_run sch attr sel pol ti_init (walk_events keys_of par_sel (twi_pol sel pol (kind_of_tree t)) t)
+  = spec_obs sch attr sel (kind_of_tree t) (walk_events keys_of par_sel (twi_pol sel pol (kind_of_tree t)) t).
+Proof.
+  intros Hok Hk. apply typeinfo_reports_types_at; [exact Hok|].
+  intros i k Hin. apply kinds_fun_tbl; assumption.
+Qed.
+
+(* ---- the stacked wrapper: TypeInfo readings inside the callbacks of one parallel sub-visitor ---- *)
+Section StackedProof.
+Variable sch : tschema.
+Variable attr : N -> nattr.
+Variable sel : N -> phase -> option N.
+Variable pol : N -> phase -> action.
+Variable keys_of : N -> list N.
+Variable kind_of : N -> N.
+
+Notation obs := (phase * N * tenv)%type.
+Definition g_obs (e : event) : obs := (e_phase e, e_id e, types_at sch attr (chain_of kind_of e)).
+
+Fixpoint pick (sk : option skipmark) (evs : list event) (os : list obs) : list obs :=
+  match evs, os with
+  | e :: r, o :: os' =>
+    let '(sk', seen) := par_step sel pol sk e in (if is_nil seen then [] else [o]) ++ pick sk' r os'
+  | _, _ => []
+  end.
+
+Lemma stack_is_pick : forall evs st sk,
+  stack_run sch attr sel pol st sk evs = pick sk evs (ti_run sch attr par_sel par_pol st evs).
+Proof.
+  induction evs as [|e r IH]; intros st sk; [reflexivity|].
+  cbn [stack_run ti_run]. unfold ti_step. destruct (par_step sel pol sk e) as [sk' seen] eqn:Ep.
+  destruct (e_phase e) eqn:Eph; cbn [par_sel par_pol app pick]; rewrite Ep, IH; reflexivity.
+Qed.
+
+Lemma par_step_seen sk e :
+  snd (par_step sel pol sk e) = []
+  \/ exists fn, snd (par_step sel pol sk e)
+                = [mkEvent (e_phase e) fn (e_id e) (e_kind e) (e_key e) (e_parent e) (e_path e) (e_ancs e)].
+Proof.
+  unfold par_step.
+  repeat match goal with
+         | |- context [match ?x with _ => _ end] => destruct x
+         end; cbn [snd]; eauto.
+Qed.
+
+Lemma pick_map : forall evs sk,
+  pick sk evs (map g_obs evs) = map g_obs (snd (par_run sel pol sk evs)).
+Proof.
+  induction evs as [|e r IH]; intros sk; [reflexivity|].
+  cbn [map pick par_run]. pose proof (par_step_seen sk e) as Hs.
+  destruct (par_step sel pol sk e) as [sk' seen]. cbn [snd] in Hs. rewrite IH.
+  destruct (par_run sel pol sk' r) as [sk2 o2]. cbn [snd]. rewrite map_app.
+  destruct Hs as [->|[fn ->]]; reflexivity.
+Qed.
+
+Theorem stacked_reports_types_at t :
+  tree_ok t = true -> ti_ok false false t = true ->
+  (forall i k, In (i, k) (kinds_of t) -> kind_of i = k) ->
+  stack_run sch attr sel pol ti_init None (walk_events keys_of par_sel par_pol t)
+  = map g_obs (walk_events keys_of sel pol t).
+Proof.
+  intros Htree Hok Hk. rewrite stack_is_pick.
+  pose proof (typeinfo_reports_types_at sch attr par_sel par_pol keys_of kind_of t Hok Hk) as Hti.
+  change (twi_pol par_sel par_pol kind_of) with par_pol in Hti.
+  rewrite Hti.
+  assert (Hs : spec_obs sch attr par_sel kind_of (walk_events keys_of par_sel par_pol t)
+               = map g_obs (walk_events keys_of par_sel par_pol t)).
+  { unfold spec_obs. generalize (walk_events keys_of par_sel par_pol t) as l.
+    induction l as [|e r IH]; [reflexivity|].
+    cbn [flat_map map]. rewrite IH. reflexivity. }
+  rewrite Hs, pick_map.
+  pose proof (par_projection keys_of sel pol t Htree) as Hp. unfold par_observed in Hp. rewrite Hp. reflexivity.
+Qed.
+End StackedProof.
